@@ -29,7 +29,7 @@ plan('C12',
                                   '(TSan happens-before analysis, lost-update conservation at full speed)',
                                   'reorderings that a weaker memory model than x86-64 TSO allows are seen only through TSan, not executed',
                                   'a handle is never assigned to itself (h = h), which is a sequential matter outside this property'])
-T('C12', 'deterministic token-passing scheduler enumerating interleavings at the library\'s atomic steps + real-thread stress under TSan/ASan/-O2 with conservation and exactly-once-destruction monitors',
+T('C12', 'deterministic token-passing scheduler enumerating interleavings at the library\'s atomic steps + real-thread stress under TSan/ASan/-O2 with conservation and exactly-once-destruction monitors, incl. clone/dup races and Atomic<handle> publication',
   'Every enumerated interleaving is a real execution judged by payload construct/destroy accounting (exactly once, never while a handle is held: holders read through their handles) and ASan; '
   'stress runs add TSan race detection and conservation of counter sums.',
   'Trusts gcc TSan/ASan, the scheduler (its own state is behind one mutex and never touched from inside asl), std::thread.')
